@@ -27,7 +27,8 @@ MANIFEST = dict(
          "that the threaded device order does not depend on string hashing. Tie: "
          "constants, fixed keys, composition order and de-dup kind of both facades regenerated from the source; the hand-transcribed "
          "comprehensions by differential correspondence against the REAL GeckoAsyncFacade and GeckoFacade built on stub spas (assignment "
-         "written into the block through the real accessors).",
+         "written into the block through the real accessors)."
+         ' Since session 3: rescans_are_idempotent (the facade OBJECT scanned any number of times holds the inventory of one scan; whether each list is rebuilt or grown is generated from both scan methods), checked by re-connecting the real blocking facade.',
     note="Trusted: Lean kernel; harness/gen_c12.py (AST evaluation of const.py, syntactic facts); the correspondence harness. 'Wired to an "
          "output' is the label-prefix relation the library itself uses (no other definition exists in the repository). str.upper() is modelled "
          "as ASCII upper: every upper-cased key of the shipped tables is ASCII (checked by the kernel).",
